@@ -265,7 +265,7 @@ class Run:
 
     # -- conformance: execute cases on the real library, validate with TLC
     def conform(self, cases, module, cfg, prelude=None, epilogue=None, shards=12, tag="t",
-                mode="run", timeout=3000, xmx="3g", kinds=None):
+                mode="run", timeout=3000, xmx="3g", kinds=None, post=None):
         """cases: list[Case]; prelude/epilogue: script lines put around every shard."""
         prelude = prelude or []
         epilogue = epilogue or []
@@ -296,6 +296,10 @@ class Run:
         t0 = time.time()
         for sp, ep, index, chunk in jobs:
             run_shim(sp, ep, mode=mode)
+            if post:
+                # pure re-encoding of bulky observed fields (e.g. patch bytes -> abstract chunk list)
+                lines = [json.dumps(post(json.loads(x)), separators=(",", ":")) for x in open(ep)]
+                open(ep, "w").write("\n".join(lines) + "\n")
         t1 = time.time()
 
         def validate(job):
